@@ -219,6 +219,22 @@ fn parse_rows(text: &str, delim: &str) -> Result<Vec<Vec<f64>>, String> {
     Ok(rows)
 }
 
+fn c04_orders(maxlen: usize) -> Vec<Vec<Vec<u8>>> {
+    let base = strings(S5, 0, maxlen);
+    let n = base.len();
+    vec![base.clone(), base.iter().rev().cloned().collect(), (0..n).map(|i| base[(i * 1597) % n].clone()).collect()]
+}
+
+fn c04_file_order(ctx: &mut Ctx, k: usize, records: &[Vec<u8>], mode: &str, threads: usize, order: usize) {
+    let before = ctx.rep.violations.len();
+    c04_file(ctx, k, records, mode, threads);
+    // make the recorded case replayable with its order
+    for v in ctx.rep.violations.iter_mut().skip(before) {
+        v.argv.push(order.to_string());
+        v.desc = format!("[record order {}] {}", ["shortest first", "longest first", "stride permutation"][order], v.desc);
+    }
+}
+
 /// the whole small scope as ONE file through the file API
 fn c04_file(ctx: &mut Ctx, k: usize, records: &[Vec<u8>], mode: &str, threads: usize) {
     let inp = format!("{}/c04_in.fa", ctx.scratch);
@@ -344,17 +360,25 @@ pub fn c04(ctx: &mut Ctx) {
     }
     ctx.rep.count("cases.family", n);
     // file API: all S5 strings of length <= 6 as one file per (k, mode); one (k, mode) pair per shard slot
-    let recs = strings(S5, 0, ctx.pick(5, 6));
+    // three orders of the same records: shortest first, longest first, and a stride permutation that interleaves
+    // short and long records (a routine that carries state from one record to the next must not get away with it)
+    let base = strings(S5, 0, ctx.pick(5, 6));
+    let mut orders: Vec<Vec<Vec<u8>>> = vec![base.clone(), base.iter().rev().cloned().collect()];
+    let n = base.len();
+    orders.push((0..n).map(|i| base[(i * 1597) % n].clone()).collect()); // 1597 is coprime to 5^j sums used here
     let mut sh = ctx.shard;
     let mut nf = 0u64;
     for k in 1..=4usize {
-        for (mode, threads) in [("mmap", 3usize), ("mmap", 16), ("batch-norm", 4), ("batch-small", 4), ("counts", 2)] {
-            if sh.mine() {
-                c04_file(ctx, k, &recs, mode, threads);
-                nf += 1;
+        for (oi, recs) in orders.iter().enumerate() {
+            for (mode, threads) in [("mmap", 3usize), ("mmap", 16), ("batch-norm", 4), ("batch-small", 4), ("counts", 2), ("counts", 1), ("batch-norm", 1)] {
+                if sh.mine() {
+                    c04_file_order(ctx, k, recs, mode, threads, oi);
+                    nf += 1;
+                }
             }
         }
     }
+    let recs = base;
     ctx.rep.count("cases.file_runs", nf);
     if ctx.shard.is_first() {
         ctx.rep.sample("per-record: \"ACNGT\" k=2 -> counts AC:2 (AC and GT), total 2; normalised 1.0 in column AC".to_string());
@@ -612,6 +636,18 @@ pub fn c11(ctx: &mut Ctx) {
             }
         }
     }
+    // every record count 0..=40 (and a few larger) x threads 1..=8, 16 x two batch limits
+    let pool = cgr_record_sets().into_iter().find(|(t, _)| *t == "five-hundred").unwrap().1;
+    for nrec in (0..=40usize).chain([63, 64, 65, 127, 129]) {
+        for threads in (1..=8usize).chain([16]) {
+            for mem in [7usize, 4 << 30] {
+                if sh.mine() {
+                    c11_file(ctx, &pool[..nrec], 16, threads, mem, &format!("five-hundred:{nrec}"));
+                    nf += 1;
+                }
+            }
+        }
+    }
     ctx.rep.count("cases.file_runs", nf);
     if ctx.shard.is_first() {
         ctx.rep.sample("clean: \"AC\" S=16 -> points (4,4), (2,10) exactly (dyadic oracle)".to_string());
@@ -761,6 +797,17 @@ pub fn c12(ctx: &mut Ctx) {
             }
         }
     }
+    let pool = &sets[3].1;
+    for nrec in (0..=40usize).chain([63, 64, 65, 127, 129]) {
+        for threads in (1..=8usize).chain([16]) {
+            for (mem, norm) in [(7usize, true), (4 << 30, false)] {
+                if sh.mine() {
+                    c12_file(ctx, &pool[..nrec], 2, 16, norm, threads, mem, &format!("three-hundred:{nrec}"));
+                    nf += 1;
+                }
+            }
+        }
+    }
     ctx.rep.count("cases.file_runs", nf);
     if ctx.shard.is_first() {
         ctx.rep.sample("per-record: \"ACGTN\" k=2 S=16: column AC at the CGR end point of \"AC\" = (2,10), f = oligo value of AC".to_string());
@@ -777,8 +824,9 @@ pub fn replay(ctx: &mut Ctx, args: &[String]) {
             c04_one(ctx, &oligo_set(k), "replay", &unhex(&args[1]), true)
         }
         "C04file" => {
-            let recs = strings(S5, 0, if args[4] == "3906" { 5 } else { 6 });
-            c04_file(ctx, args[1].parse().unwrap(), &recs, &args[2], args[3].parse().unwrap())
+            let orders = c04_orders(if args[4] == "3906" { 5 } else { 6 });
+            let oi: usize = args.get(5).and_then(|o| o.parse().ok()).unwrap_or(0);
+            c04_file(ctx, args[1].parse().unwrap(), &orders[oi], &args[2], args[3].parse().unwrap())
         }
         "C11" | "C11long" => {
             let s: usize = args[2].parse().unwrap();
@@ -790,7 +838,14 @@ pub fn replay(ctx: &mut Ctx, args: &[String]) {
             }
         }
         "C11file" => {
-            let recs = cgr_record_sets().into_iter().find(|(t, _)| *t == args[1]).expect("record set").1;
+            let (base, n) = match args[1].split_once(':') {
+                Some((b, n)) => (b.to_string(), n.parse::<usize>().ok()),
+                None => (args[1].clone(), None),
+            };
+            let mut recs = cgr_record_sets().into_iter().find(|(t, _)| *t == base).expect("record set").1;
+            if let Some(n) = n {
+                recs.truncate(n);
+            }
             c11_file(ctx, &recs, args[2].parse().unwrap(), args[3].parse().unwrap(), args[4].parse().unwrap(), &args[1])
         }
         "C12" => {
